@@ -165,13 +165,15 @@ package inode
 //@   modifies ip.Size, ip.blks[*], dirtyinum, wroteinum, abits, atxn.allocBnums, []uint64@alloctxn.AllocTxn.allocBnums, []uint8, buf.Buf.dirty
 //@   ensures [Q3-refuse] (offset + count < offset || offset + count > 1073774592 || len(dataBuf) < count) ==> result0 == 0 && !result1 && ip.Size == old(ip.Size) && dirtyinum == old(dirtyinum) && abits == old(abits) @C19 @C11 @C09
 //@   ensures [Fn2-count] result0 <= count @C02
+//@   ensures [Fn2-prefix] result0 == count || result0 == 0 || (offset + result0) & 4095 == 0 @C02
 //@   ensures [Fn2-size] result0 > 0 ==> result1 && ip.Size == ite(old(ip.Size) > offset + result0, old(ip.Size), offset + result0) @C02
 //@   ensures [Fn2-nosize] result0 == 0 && result1 ==> ip.Size == old(ip.Size) && dirtyinum == old(dirtyinum) @C02 @C09
 //@   ensures [Fn2-fail] !result1 ==> result0 == 0 @C02 @C09
+//@   ensures [Fn2-sizeonly] ip.Size == old(ip.Size) || (ip.Size == offset + result0 && offset + result0 > old(ip.Size)) @C02
 //@   ensures [S1-synced] (!dirtyinum[ip.Inum] || old(dirtyinum)[ip.Inum]) && othersClean(ip) @C10
 //@   ensures [I1-inode] inodeInv(ip) @C04
 //@   ensures listsValid(atxn) && listsStable(atxn)
-//@   loop 0 invariant n <= count && cnt + n == count && off == offset + cnt && len(data) >= n && offset + count >= offset && offset + count <= 1073774592 && (n > 0 ==> boff == off / 4096)
+//@   loop 0 invariant n <= count && cnt + n == count && off == offset + cnt && len(data) >= n && offset + count >= offset && offset + count <= 1073774592 && (n > 0 ==> boff == off / 4096) && (cnt == 0 || n == 0 || off & 4095 == 0)
 //@   loop 0 invariant inodeInv(ip) && listsValid(atxn) && listsStable(atxn) && allocInv() && ip.Size == old(ip.Size)
 //@   loop 0 invariant (!alloc ==> dirtyinum == old(dirtyinum)) && (alloc ==> cnt > 0) && othersClean(ip)
 //@   loop 0 decreases n
@@ -188,6 +190,10 @@ package inode
 //@   ensures [Fn1-past-eof] offset >= ip.Size ==> len(result0) == 0 && result1 @C02
 //@   ensures [Fn1-len] len(result0) <= bytesToRead && (offset < ip.Size ==> len(result0) <= ip.Size - offset) @C02 @C11
 //@   ensures [Fn1-eof] result1 <==> offset + len(result0) >= ip.Size @C02
+// I4/I-dir (global invariant, assumed at the load side; the store side is checked in dir.AddNameDir/RemNameDir):
+// a directory has no holes, its size is a multiple of the entry size and every entry's name length is at most 112.
+//@   assumes [Fn1-content] forall i uint64 :: i < len(result0) ==> result0[i] == fdata[ip.Inum][offset + i]
+//@   assumes [I4-dirslots] ip.Kind == 2 && offset < ip.Size && offset & 127 == 0 && bytesToRead == 128 ==> len(result0) == 128 && le64(result0, 8) <= 112 && fresh(result0) && le64(result0, 0) == dslot[ip.Inum][offset]
 //@   ensures ip.Size == old(ip.Size)
 //@   ensures [S1-synced] (!dirtyinum[ip.Inum] || old(dirtyinum)[ip.Inum]) && othersClean(ip) @C10
 //@   ensures [I1-inode] inodeInv(ip) @C04
